@@ -112,20 +112,34 @@ func (e *Enc) appendCall(f *frame, st *State, in *ssa.Call, args []Val, resShape
 		rowSrc := fmt.Sprintf("(select %s %s)", h.Term, t.Sub[0].T)
 		e.frameLemmas(h, t.Sub[0].T, map[*Heap]bool{})
 		nrow := e.fresh("arow_"+sanitize(l.Path), "(Array Int "+l.K.Sort()+")")
-		// nrow[j] for j in the copied prefix, in the appended part, and (in place) elsewhere;
-		// every axiom triggers on (select nrow j).
-		e.assume(fmt.Sprintf("(forall ((j Int)) (! (=> (and (<= %s j) (< j (+ %s %s))) (= (select %s j) (select %s (+ %s (- j %s))))) :pattern ((select %s j))))",
-			off, off, s.Sub[2].T, nrow, rowOld, s.Sub[1].T, off, nrow))
+		// appended elements of a constant-length argument are stated directly; everything else
+		// (copied prefix, symbolic-length argument, untouched cells when appending in place) is
+		// available through explicit instantiation at the index terms that occur (see below).
 		if n, ok := constLen(t); ok {
 			for k := 0; k < n; k++ {
 				e.assume(fmt.Sprintf("(= (select %s (+ %s %s %d)) (select %s (+ %s %d)))", nrow, off, s.Sub[2].T, k, rowSrc, t.Sub[1].T, k))
 			}
-		} else {
-			e.assume(fmt.Sprintf("(forall ((j Int)) (! (=> (and (<= (+ %s %s) j) (< j (+ %s %s))) (= (select %s j) (select %s (+ %s (- j (+ %s %s)))))) :pattern ((select %s j))))",
-				off, s.Sub[2].T, off, newLen, nrow, rowSrc, t.Sub[1].T, off, s.Sub[2].T, nrow))
 		}
-		e.assume(fmt.Sprintf("(=> %s (forall ((j Int)) (! (=> (or (< j (+ %s %s)) (>= j (+ %s %s))) (= (select %s j) (select %s j))) :pattern ((select %s j)))))",
-			fits, off, s.Sub[2].T, off, newLen, nrow, rowOld, nrow))
+		if keepQuantifiers {
+			e.assume(fmt.Sprintf("(forall ((j Int)) (! (=> (and (<= %s j) (< j (+ %s %s))) (= (select %s j) (select %s (+ %s (- j %s))))) :pattern ((select %s j))))",
+				off, off, s.Sub[2].T, nrow, rowOld, s.Sub[1].T, off, nrow))
+			e.assume(fmt.Sprintf("(=> %s (forall ((j Int)) (! (=> (or (< j (+ %s %s)) (>= j (+ %s %s))) (= (select %s j) (select %s j))) :pattern ((select %s j)))))",
+				fits, off, s.Sub[2].T, off, newLen, nrow, rowOld, nrow))
+		}
+		// explicit instantiation: element t of the result slice
+		{
+			nrowC, offC, rowOldC, rowSrcC, fitsC := nrow, off, rowOld, rowSrc, fits
+			sOff, sLen, tOff, nl := s.Sub[1].T, s.Sub[2].T, t.Sub[1].T, newLen
+			e.ctr["qf"]++
+			qf := &quantFact{id: e.ctr["qf"], reach: e.curReach, elems: map[string]bool{p: true}}
+			qf.inst = func(x string) string {
+				return and(
+					fmt.Sprintf("(=> (and (<= 0 %s) (< %s %s)) (= (select %s (+ %s %s)) (select %s (+ %s %s))))", x, x, sLen, nrowC, offC, x, rowOldC, sOff, x),
+					fmt.Sprintf("(=> (and (<= %s %s) (< %s %s)) (= (select %s (+ %s %s)) (select %s (+ %s (- %s %s)))))", sLen, x, x, nl, nrowC, offC, x, rowSrcC, tOff, x, sLen),
+					fmt.Sprintf("(=> (and %s (or (< %s 0) (>= %s %s))) (= (select %s (+ %s %s)) (select %s (+ %s %s))))", fitsC, x, x, nl, nrowC, offC, x, rowOldC, offC, x))
+			}
+			e.quantFacts = append(e.quantFacts, qf)
+		}
 		nh := &Heap{Name: h.Name, Sort: h.Sort, Indexed: true, Prev: h}
 		nh.Term = e.define("H_"+sanitize(h.Name), h.Sort, fmt.Sprintf("(store %s %s %s)", h.Term, base, nrow))
 		st.heaps[h.Name] = nh
@@ -359,7 +373,7 @@ func (e *Enc) contractCall(f *frame, st *State, in *ssa.Call, callee *ssa.Functi
 		env.vars[p.Name()] = args[i]
 	}
 	for k, c := range fc.Requires {
-		goal := e.safeEvalBool(c, env)
+		goal := e.safeEvalGoal(c, env)
 		e.oblige("pre", fmt.Sprintf("%s/requires%d@%s", name, k+1, e.site(in)), in.Pos(), goal, e.callProps(c), c.Text)
 	}
 	pre := st.clone()
@@ -451,7 +465,7 @@ func (e *Enc) contractCall(f *frame, st *State, in *ssa.Call, callee *ssa.Functi
 	saveNE := e.nextEntry
 	e.nextEntry = nextAtCall
 	for _, c := range fc.Ensures {
-		e.assume(e.safeEvalBool(c, penv))
+		e.assume(e.safeEvalHyp(c, penv))
 	}
 	e.nextEntry = saveNE
 	e.usedContracts[name] = true
@@ -471,6 +485,9 @@ func (e *Enc) callProps(c *Clause) []string {
 		}
 	}
 	if len(out) == 0 {
+		if len(c.Props) > 0 {
+			return c.Props
+		}
 		return e.fc.Props
 	}
 	return out
@@ -578,7 +595,7 @@ func (e *Enc) fnTypeCall(f *frame, st *State, in *ssa.Call, fc *FuncContract, fv
 	}
 	e.oblige("nil", e.site(in), in.Pos(), fmt.Sprintf("(not (= %s 0))", fv.T), e.safetyProps(), "")
 	for k, c := range fc.Requires {
-		goal := e.safeEvalBool(c, env)
+		goal := e.safeEvalGoal(c, env)
 		e.oblige("pre", fmt.Sprintf("%s/requires%d@%s", fc.Name, k+1, e.site(in)), in.Pos(), goal, e.callProps(c), c.Text)
 	}
 	pre := st.clone()
@@ -614,7 +631,7 @@ func (e *Enc) fnTypeCall(f *frame, st *State, in *ssa.Call, fc *FuncContract, fv
 		penv.vars["result0"] = res
 	}
 	for _, c := range fc.Ensures {
-		e.assume(e.safeEvalBool(c, penv))
+		e.assume(e.safeEvalHyp(c, penv))
 	}
 	e.usedContracts[fc.Name] = true
 	return res
@@ -821,7 +838,7 @@ func (e *Enc) implPre(f *frame, st *State, in *ssa.Call, recv Val, args []Val) {
 		}
 		isT := fmt.Sprintf("(= %s %d)", recv.Sub[0].T, ic.tag)
 		for k, c := range ic.fc.Requires {
-			goal := implies(isT, e.safeEvalBool(c, env))
+			goal := implies(isT, e.safeEvalGoal(c, env))
 			e.oblige("pre", fmt.Sprintf("%s/requires%d@%s", e.w.funcName(ic.fn), k+1, e.site(in)), in.Pos(), goal, e.callProps(c), c.Text)
 		}
 	}
@@ -851,7 +868,7 @@ func (e *Enc) implPost(f *frame, st, pre *State, in *ssa.Call, recv Val, args []
 		}
 		isT := fmt.Sprintf("(= %s %d)", recv.Sub[0].T, ic.tag)
 		for _, c := range ic.fc.Ensures {
-			e.assume(implies(isT, e.safeEvalBool(c, penv)))
+			e.assume(implies(isT, e.safeEvalHyp(c, penv)))
 		}
 		e.usedContracts[e.w.funcName(ic.fn)] = true
 	}
